@@ -192,3 +192,125 @@ Definition doc_walk_outcome (pad : Z) (d : psd) : list Z :=
   | Ok (b, _) => walk_digest b
   | Err e => [2; err_code e]
   end.
+
+(* ---- Stage 2: modelled leaf payloads (Psd/Leaf.v) *)
+From PsdV Require Import Psd.Leaf.
+Definition c_leaf (l : leaf) : list Z :=
+  match l with
+  | LByte v => [1; v] | LInteger v => [2; v] | LShort v => [3; v]
+  | LBool b => [4; if b then 1 else 0]
+  | LString u => 5 :: c_list c_z u
+  | LEmpty => [6]
+  | LBytes b => 7 :: c_bytes b
+  | LSectionDivider k s b t => [8; k] ++ c_opt c_z s ++ c_opt c_z b ++ c_opt c_z t
+  | LSheetColor v => [9; v]
+  | LReferencePoint l => 10 :: c_list c_z l
+  | LRestrictions l => 11 :: c_list c_z l
+  | LColor i v => [12; i] ++ c_list c_z v
+  | LFilterMask i v o => [13; i] ++ c_list c_z v ++ [o]
+  | LResByte v => [14; v] | LResInteger v => [15; v] | LResShort v => [16; v]
+  end.
+(* [0; written; digest bytes; 0; digest canon(reread); reread = original ?; wf ?] *)
+Definition leaf_outcome (a : Z * leaf) : list Z :=
+  let '(pad, l) := a in
+  match write_leaf pad l with
+  | Err e => [err_code e]
+  | Ok (b, n) =>
+      [0; n; dig b] ++
+      match read_leaf (kind_of l) b with
+      | Err e => [err_code e]
+      | Ok l' => [0; dig (c_leaf l'); if list_eqb (c_leaf l') (c_leaf l) then 1 else 0]
+      end ++ [if wf_leaf l then 1 else 0]
+  end.
+(* the same payload inside a TaggedBlock(signature, key, data).write(fp, version, padding) *)
+Definition typed_outcome (a : Z * Z * Z * Z * leaf) : list Z :=
+  let '(v, pad, sg, key, l) := a in
+  match write_typed_block v pad sg key l with
+  | Err e => [err_code e]
+  | Ok (b, n) =>
+      [0; n; dig b] ++
+      match read_typed_block (kind_of l) v pad b with
+      | Err e => [err_code e]
+      | Ok None => [0; 0]
+      | Ok (Some (sg', key', l', _)) =>
+          [0; dig ([sg'; key'] ++ c_leaf l'); if list_eqb ([sg'; key'] ++ c_leaf l') ([sg; key] ++ c_leaf l) then 1 else 0]
+      end
+  end.
+
+(* ---- Stage 2: the descriptor family (Psd/Descriptor.v) *)
+From PsdV Require Import Psd.Descriptor.
+Fixpoint c_dval (d : dval) : list Z :=
+  let c_items (items : list (key * dval)) :=
+    len items :: flat_map (fun kv : key * dval => let (k, v) := kv in c_bytes k ++ c_dval v) items in
+  ostype_of d ::
+  match d with
+  | DDesc _ name cid items => c_list c_z name ++ c_bytes cid ++ c_items items
+  | DObjArr count name cid items => count :: c_list c_z name ++ c_bytes cid ++ c_items items
+  | DList _ items => len items :: flat_map c_dval items
+  | DProperty name cid kid => c_list c_z name ++ c_bytes cid ++ c_bytes kid
+  | DUnitFloat u v => [u; v]
+  | DUnitFloats u vs => u :: c_list c_z vs
+  | DDouble v => [v]
+  | DClass _ name cid => c_list c_z name ++ c_bytes cid
+  | DString u => c_list c_z u
+  | DEnumRef name cid tid en => c_list c_z name ++ c_bytes cid ++ c_bytes tid ++ c_bytes en
+  | DOffset name cid v => c_list c_z name ++ c_bytes cid ++ [v]
+  | DBool b => [if b then 1 else 0]
+  | DLargeInt v => [v]
+  | DInt _ v => [v]
+  | DEnum tid en => c_bytes tid ++ c_bytes en
+  | DRaw _ b => c_bytes b
+  | DName name cid v => c_list c_z name ++ c_bytes cid ++ c_list c_z v
+  end.
+(* X.frombytes(x.tobytes()):  [0; written; digest bytes; 0; digest canon; equal ?; #terms added; wf ?] *)
+Definition dval_outcome (units : list Z) (t : terms) (d : dval) : list Z :=
+  match write_dval t d with
+  | Err e => [err_code e]
+  | Ok (b, n) =>
+      [0; n; dig b] ++
+      match read_dval units (S (length b)) t (ostype_of d) b with
+      | Err e => [err_code e]
+      | Ok (d', t', _) => [0; dig (c_dval d'); if list_eqb (c_dval d') (c_dval d) then 1 else 0; len t' - len t]
+      end ++ [if wf_dval units d then 1 else 0]
+  end.
+Definition c_dblock (b : dblock) : list Z :=
+  match b with DBlock v d => 1 :: v :: c_dval d | DBlock2 v dv d => 2 :: v :: dv :: c_dval d end.
+Definition dblock_outcome (units : list Z) (t : terms) (a : Z * dblock) : list Z :=
+  let '(pad, blk) := a in
+  match write_dblock t pad blk with
+  | Err e => [err_code e]
+  | Ok (b, n) =>
+      [0; n; dig b] ++
+      match read_dblock units (match blk with DBlock _ _ => false | DBlock2 _ _ _ => true end) t b with
+      | Err e => [err_code e]
+      | Ok (b', t') => [0; dig (c_dblock b'); if list_eqb (c_dblock b') (c_dblock blk) then 1 else 0; len t' - len t]
+      end ++ [if wf_dblock units blk then 1 else 0]
+  end.
+
+(* ---- Stage 2: EffectsLayer (Psd/Effects.v) *)
+From PsdV Require Import Psd.Effects.
+Definition c_col (c : color) : list Z := fst c :: c_list c_z (snd c).
+Definition c_effect (e : effect) : list Z :=
+  effect_kind e ::
+  match e with
+  | FxCommon v vis => [v; vis]
+  | FxShadow v bl i a d col b en ug op nat => [v; bl; i; a; d] ++ c_col col ++ [b; en; ug; op] ++ c_col nat
+  | FxOuterGlow v bl i col b en op nat => [v; bl; i] ++ c_col col ++ [b; en; op] ++ c_opt c_col nat
+  | FxInnerGlow v bl i col b en op inv nat => [v; bl; i] ++ c_col col ++ [b; en; op] ++ c_opt c_z inv ++ c_opt c_col nat
+  | FxBevel v a d bl hb sb hc sc st ho so en ug dir real =>
+      [v; a; d; bl; hb; sb] ++ c_col hc ++ c_col sc ++ [st; ho; so; en; ug; dir] ++
+      c_opt (fun p : color * color => c_col (fst p) ++ c_col (snd p)) real
+  | FxSolidFill v b col op en nat => [v; b] ++ c_col col ++ [op; en] ++ c_col nat
+  end.
+Definition c_effects (l : effects_layer) : list Z :=
+  fx_version l :: c_list (fun ke : Z * effect => fst ke :: c_effect (snd ke)) (fx_items l).
+Definition effects_outcome (l : effects_layer) : list Z :=
+  match write_effects l with
+  | Err e => [err_code e]
+  | Ok (b, n) =>
+      [0; n; dig b] ++
+      match read_effects b with
+      | Err e => [err_code e]
+      | Ok l' => [0; dig (c_effects l'); if list_eqb (c_effects l') (c_effects l) then 1 else 0]
+      end ++ [if wf_effects l then 1 else 0]
+  end.
